@@ -157,6 +157,8 @@ func grid(tier string) []cfgCase {
 	for _, rk := range [][2]int{{6, 6}, {6, 10}, {2, 12}, {14, 6}} {
 		for _, rep := range []int32{2, 3} {
 			out = append(out, cfgCase{[]vspec{{rk[0], 0, 1, 1, rep, 7}, {16, 0, 1, 1, 1, 0}, {rk[1], 1, 1, 1, rep, 9}, {5, 1, 0, 2, 1, 0}, {15, 2, 1, 1, 1, 0}}, 3})
+			// the seeded values run out FIRST, the values without a seed of their own last
+			out = append(out, cfgCase{[]vspec{{rk[0], 0, 0, 2, rep, 7}, {rk[1], 0, 0, 2, rep, 9}, {rk[0], 1, 0, 2, rep, 11}, {16, 50, 1, 1, 1, 0}, {5, 51, 1, 1, 1, 0}, {15, 52, 1, 1, 1, 0}}, 3})
 		}
 	}
 	var red []vspec
